@@ -31,6 +31,10 @@ pub(crate) mod custom;
 #[cfg(not(wasm_browser))]
 mod ip;
 mod relay;
+#[cfg(iroh_verif)]
+pub(crate) use self::relay::verif_hooks as verif_relay;
+#[cfg(iroh_verif)]
+pub(crate) use self::ip::verif_hooks as verif_ip;
 
 use custom::{CustomEndpoint, CustomSender, CustomTransport};
 
@@ -496,6 +500,112 @@ impl Transports {
                 .iter()
                 .map(|t| t.create_network_change_sender())
                 .collect(),
+        }
+    }
+}
+
+/// Verification hooks (C19): a [`TransportsSender`] over freshly bound IP sockets, recording
+/// relay senders and recording custom senders.  Only compiled with `--cfg iroh_verif`.
+#[cfg(iroh_verif)]
+pub(crate) mod verif_hooks {
+    use std::sync::Mutex;
+
+    use super::{verif_ip::BindSpec, verif_relay::RelaySentLog, *};
+
+    /// What a recording custom sender was handed: `(remote, local, contents length)`.
+    pub type CustomSentLog = Arc<Mutex<Vec<(CustomAddr, Option<CustomAddr>, usize)>>>;
+
+    #[derive(Debug)]
+    struct RecordingCustomSender {
+        id: u64,
+        log: CustomSentLog,
+    }
+
+    impl CustomSender for RecordingCustomSender {
+        fn is_valid_send_addr(&self, addr: &CustomAddr) -> bool {
+            addr.id() == self.id
+        }
+        fn poll_send(
+            &self,
+            _cx: &mut Context,
+            dst: &CustomAddr,
+            src: Option<&CustomAddr>,
+            transmit: &Transmit<'_>,
+        ) -> Poll<io::Result<()>> {
+            let mut log = self.log.lock().expect("poisoned");
+            log.push((dst.clone(), src.cloned(), transmit.contents.len()));
+            Poll::Ready(Ok(()))
+        }
+    }
+
+    /// A [`TransportsSender`] together with the sockets and logs behind it.
+    #[derive(Debug)]
+    pub struct VerifSender {
+        sender: TransportsSender,
+        ip: IpTransports,
+        /// One log per relay sender.
+        pub relay_logs: Vec<RelaySentLog>,
+        /// One log per custom sender.
+        pub custom_logs: Vec<CustomSentLog>,
+    }
+
+    impl VerifSender {
+        /// Binds `binds` with [`IpTransports::bind`] (must be called within a tokio runtime) and
+        /// adds `n_relay` recording relay senders and one recording custom sender per id.
+        pub fn over(binds: &[BindSpec], n_relay: usize, custom_ids: &[u64]) -> io::Result<Self> {
+            let mut configs = Vec::new();
+            for b in binds {
+                configs.push(b.config().ok_or_else(|| io::Error::other("invalid prefix"))?);
+            }
+            let ip = IpTransports::bind(configs.into_iter(), &EndpointMetrics::default())?;
+            let (relay, relay_logs) = (0..n_relay)
+                .map(|_| verif_relay::recording_sender(64))
+                .unzip();
+            let custom_logs: Vec<CustomSentLog> =
+                custom_ids.iter().map(|_| CustomSentLog::default()).collect();
+            let custom = custom_ids
+                .iter()
+                .zip(&custom_logs)
+                .map(|(id, log)| {
+                    Arc::new(RecordingCustomSender {
+                        id: *id,
+                        log: log.clone(),
+                    }) as Arc<dyn CustomSender>
+                })
+                .collect();
+            let sender = TransportsSender {
+                ip: ip.create_sender(),
+                relay,
+                custom,
+                max_transmit_segments: NonZeroUsize::MIN,
+            };
+            Ok(Self {
+                sender,
+                ip,
+                relay_logs,
+                custom_logs,
+            })
+        }
+
+        /// `(bind address, prefix length, is_default, local address)` per bound socket, in
+        /// routing-table order.
+        pub fn table(&self) -> Vec<(SocketAddr, u8, bool, SocketAddr)> {
+            self.ip.verif_table()
+        }
+
+        /// [`TransportsSender::poll_send`] of one datagram on `path`.
+        pub fn poll_send(
+            &mut self,
+            cx: &mut Context,
+            path: &FourTuple,
+            contents: &[u8],
+        ) -> Poll<io::Result<()>> {
+            let transmit = Transmit {
+                ecn: None,
+                contents,
+                segment_size: None,
+            };
+            Pin::new(&mut self.sender).poll_send(cx, path, &transmit)
         }
     }
 }
